@@ -3,6 +3,7 @@ use crate::rng::Rng;
 use std::fmt::Write as _;
 
 pub mod c01;
+pub mod c17;
 pub mod common;
 pub mod profiles;
 
